@@ -146,6 +146,7 @@ CHECKS["C03"] = {
     "nontrivial_floor": 1000,
     "units": [
         {"name": "redirects", "run": "^TestC03Redirects$", "kind": "plain", "shards": 4},
+        {"name": "client-redirect", "run": "^TestC03ClientRedirect$", "kind": "rapid", "checks": {"quick": 400, "thorough": 8000}, "shards": {"quick": 4, "thorough": 8}},
         {"name": "regress", "run": "^TestC03Regress$", "kind": "plain"},
         {"name": "client", "run": "^TestC03Client$", "kind": "rapid", "checks": {"quick": 8000, "thorough": 160000}, "shards": {"quick": 4, "thorough": 16}},
         {"name": "parsers", "run": "^TestC03Parsers$", "kind": "rapid", "checks": {"quick": 120000, "thorough": 2400000}, "shards": {"quick": 8, "thorough": 16}},
